@@ -48,11 +48,50 @@ def typeOf (dict : List (Rule × TypeName)) (matchesOf : Rule → List Nat) (a :
   | some r => (dict.find? (·.1 == r)).map (·.2)
   | none => none
 
+
 /-- `get_type_assignments`: `matchesOf r` = atoms matched by rule `r`; result: atom ↦ type, or (error) the partial map -/
 def assign (dict : List (Rule × TypeName)) (matchesOf : Rule → List Nat) (natoms : Nat) :
     Except (List (Nat × TypeName)) (List (Nat × TypeName)) :=
   let typed := (List.range natoms).filterMap fun a => (typeOf dict matchesOf a).map (fun t => (a, t))
   if typed.length = natoms then .ok typed else .error typed
+
+/-- `_type_dict`, `_type_dict_rev`, `_rule_dict` as `_read_smarts_rules` builds them: a new type name gets the next counter
+value; names map to ids, ids back to names, rules to names (last line wins) -/
+structure RuleTables where
+  typeDict : List (TypeName × Nat) := []
+  typeRev : List (Nat × TypeName) := []
+  ruleDict : List (Rule × TypeName) := []
+  counter : Nat := 0
+deriving Repr, Inhabited
+
+def dictSet {κ ν} [BEq κ] (d : List (κ × ν)) (k : κ) (v : ν) : List (κ × ν) := dictInsert d k v
+
+/-- the two id dictionaries depend on the sequence of TYPE columns only -/
+def readTypes (types : List TypeName) : List (TypeName × Nat) × List (Nat × TypeName) × Nat :=
+  types.foldl (fun (acc : List (TypeName × Nat) × List (Nat × TypeName) × Nat) t =>
+    let (id, ctr) := match (acc.1.find? (·.1 == t)).map (·.2) with
+      | some i => (i, acc.2.2)
+      | none => (acc.2.2, acc.2.2 + 1)
+    (dictSet acc.1 t id, dictSet acc.2.1 id t, ctr)) ([], [], 0)
+
+def readRules (rules : List (TypeName × Rule)) : RuleTables :=
+  let tt := readTypes (rules.map (·.1))
+  { typeDict := tt.1, typeRev := tt.2.1, ruleDict := ruleDict rules, counter := tt.2.2 }
+
+/-- `get_ffparam(get_type(_rule_dict[rule]))`: rule → type name → numeric id → type name (whose row is then read) -/
+def resolveRule (tb : RuleTables) (r : Rule) : Option TypeName :=
+  match (tb.ruleDict.find? (·.1 == r)).map (·.2) with
+  | none => none
+  | some name =>
+    match (tb.typeDict.find? (·.1 == name)).map (·.2) with
+    | none => none
+    | some id => (tb.typeRev.find? (·.1 == id)).map (·.2)
+
+/-- the same through the numeric id tables, as the code does it -/
+def typeOfVia (tb : RuleTables) (matchesOf : Rule → List Nat) (a : Nat) : Option TypeName :=
+  match firstLongest (rulesFor tb.ruleDict matchesOf a) with
+  | some r => resolveRule tb r
+  | none => none
 
 /-- element symbols that occur as leading primitives in the rule file -/
 def elemZ : List (List Char × Nat) :=
